@@ -1,0 +1,6 @@
+//go:build !verif
+
+package processor
+
+// stage is a no-op unless the package is built with the "verif" build tag.
+func stage(event string, key string) {}
